@@ -27,6 +27,7 @@ def run(run):
     per = 1 if run.tier == "quick" else 8
     jobs = [dict(seed=run.seed, start=k * per, count=per) for k in range(12)]
     res, errs = native.pmap("contracts.scenarios", "run_null_scenarios", jobs)
+    run.worker_errors(errs, len(jobs))
     ev = sum(r["evaluations"] for r in res if r and "_error" not in r)
     fails = [f for r in res if r and "_error" not in r for f in r["failures"]]
     if errs:
